@@ -7,6 +7,7 @@ pub mod engine;
 pub mod fuzz_entry;
 pub mod fuzzdrv;
 pub mod gen;
+pub mod history;
 pub mod props;
 pub mod refcheck;
 pub mod refimpl;
